@@ -141,6 +141,9 @@ func callStr(c *ssa.CallCommon, d int, seen map[ssa.Value]bool) string {
 		}
 		return fname(f) + "(" + strings.Join(args, ",") + ")"
 	}
+	if b, ok := c.Value.(*ssa.Builtin); ok {
+		return "builtin." + b.Name() + "(" + strings.Join(args, ",") + ")"
+	}
 	return "call:" + vstrd(c.Value, d+1, seen) + "(" + strings.Join(args, ",") + ")"
 }
 
@@ -357,4 +360,16 @@ func hasRoot(rs []Root, pred func(Root) bool) bool {
 		}
 	}
 	return false
+}
+
+func rootsStrNoAlloc(rs []Root) string {
+	var s []string
+	for _, r := range rs {
+		if r.Kind == "alloc" {
+			continue
+		}
+		s = append(s, r.String())
+	}
+	sort.Strings(s)
+	return strings.Join(uniq(s), ",")
 }
